@@ -33,7 +33,8 @@ Reading (how the words of the property are taken; the oracle below implements ex
   reports that measure's number and the metrical map the distance from that start; where measure_map has none (before
   the pickup-corrected start of the first measure) the number map has none either (clause `measure-consistency`).
 * a measure without a number has no number to report: not judged.
-* scalar/array agreement: f(x) for a Python int, f(np.array(xs)) and f(list(xs)) give the same rows.
+* scalar/array agreement: f(x) for a Python int, f(np.array(xs)) and f(list(xs)) give the same rows; so do a numpy
+  integer scalar (one row) and a tuple; an empty list / array gives no rows.
 * "every part": a part is what its edit history left on the timeline.  The maps are views of the part as it is NOW:
   after any history of add / remove / set_quarter_duration / use_musical_beat / use_notated_beat /
   set_musical_beat_per_ts calls, interleaved with queries of the maps, every map equals the map of a part freshly
@@ -68,7 +69,7 @@ DRIVER = "drv_c10"
 PROPS = ["PartituraModel.Props.C10", "PartituraModel.Props.C10Part", "PartituraModel.Props.C10Timeline",
          "PartituraModel.Props.C10Exact", "PartituraModel.Props.C10Notes", "PartituraModel.Props.C10Source",
          "PartituraModel.Props.C10Order", "PartituraModel.Props.C10Hist",
-         "PartituraModel.Props.C10Start"]
+         "PartituraModel.Props.C10Start", "PartituraModel.Props.C10Calls"]
 TRUSTED = [
     "scipy.interpolate.interp1d(kind='previous', fill_value='extrapolate'): index = #{x_i <= q} clipped to 1..n, "
     "NaN below the first sample (modelled by lastLE; exercised at positions before the first sample)",
@@ -97,7 +98,10 @@ TRUSTED = [
     "map's range, is not compared for the three measure maps (counted in the distribution)",
 ]
 PARTIAL = [
-    "scalar/array/list agreement of the implementation is compared (oracle), the theorem is about the model's vec",
+    "scalar/array agreement: the dispatch on the kind of argument (scipy / the wrapper's single-sample broadcast / the "
+    "Iterable test of the metrical map / the clef collator) is modelled (Model/StepMapCalls.lean) and proved to agree "
+    "(*_calls_agree) for a scalar and a flat sequence; the implementation is compared with it for int, np.int64, list, "
+    "tuple, 1-d array, empty list and empty array; 0-d arrays, nested sequences and float positions are not modelled",
     "ts/ks/clef_spec assume at most one element of a kind (and staff) per time (the Reading); for coincident elements "
     "ks/ts/clef_coincident (Props/C10Order.lean) state which one is returned (the last in iter_all order, the first of the "
     "table before all of them); the ORACLE still accepts any of the coincident elements (the Reading)",
@@ -1065,6 +1069,7 @@ def evaluate(desc):
     xs = positions(desc, L, lo, hi)
     judged = [] if not times else [x for x in xs if first_t <= x <= last_t]
     xs_tok = W.lst(W.i, xs)
+    idx_all = {x: i for i, x in enumerate(xs)}
     valid = valid_desc(L)
     ptok = part_token(L)
 
@@ -1161,6 +1166,57 @@ def evaluate(desc):
     emit("measure_number_map", "mnP %s %s" % (ptok, xs_tok), mn_s, mn_v, mn_l, mn_e)
     mp_s, mp_v, mp_l, mp_e = res["metrical_position_map"] = query_all(lambda: part.metrical_position_map, xs, canon_mp)
     emit("metrical_position_map", "mpP %s %s" % (ptok, xs_tok), mp_s, mp_v, mp_l, mp_e)
+
+    # ---- the KIND of the argument: a numpy integer scalar, a tuple, an empty list, an empty array - one call each
+    #      (Model/StepMapCalls.lean: the wrapper's single-sample branch, scipy, the Iterable test of the metrical map,
+    #      the collator of the clef map).  A scalar call gives the row of the int call, a sequence one row per element.
+    if times and valid:
+        import zlib
+
+        h = zlib.crc32(json.dumps(desc, sort_keys=True, default=str).encode())
+        mid = xs[h % len(xs)]
+        few = [xs[(h // 7 + 3 * k) % len(xs)] for k in range(1 + h % 3)]
+        arg_kinds = [("np.int64", "s %d" % mid, lambda: np.int64(mid), [mid], True),
+                     ("tuple", "v " + W.lst(W.i, few), lambda: tuple(int(x) for x in few), few, False),
+                     ("empty list", "v 0", lambda: [], [], False),
+                     ("empty array", "v 0", lambda: np.array([], dtype=int), [], False)]
+        call_specs = [
+            ("time_signature_map", "cts " + ptok, lambda a: canon_float_rows(a, 3), ts_s, ts_e, 3),
+            ("key_signature_map", "cks %s %s" % (span_tok, kss_tok), lambda a: canon_float_rows(a, 2), ks_s, ks_e, 2),
+            ("clef_map", "cclef %s %s %s" % (span_tok, clefs_tok, others_tok), lambda a: canon_clef(a), cl_s, cl_e, None),
+            ("measure_map", "cmm " + ptok, canon_mm, mm_s, mm_e, None),
+            ("measure_number_map", "cmn " + ptok, canon_mn, mn_s, mn_e, None),
+            ("metrical_position_map", "cmp " + ptok, canon_mp, mp_s, mp_e, None)]
+        nkinds = 0
+        for name, req, canon0, rows_s, err_s, approx_k in call_specs:
+            if err_s is not None or rows_s is None:
+                continue  # the map raises (reported above): nothing to call
+            if not stable and name in ("measure_map", "measure_number_map", "metrical_position_map"):
+                continue
+            if staffless and name == "clef_map":
+                continue
+            m = getattr(part, name)
+            for label, atok, mk, at, is_scalar in arg_kinds:
+                r, e = call(lambda: canon0(m(mk())))
+                if e:
+                    orc.append("scalar-vector: %s(%s argument) raised %s: %s" % (name, label, type(e).__name__, str(e)[:100]))
+                    continue
+                want = [rows_s[idx_all[x]] for x in at]
+                if is_scalar:
+                    good = r == want[0]
+                else:
+                    good = isinstance(r, list) and not (r and (isinstance(r, str) or not isinstance(r[0], (list, str)))) and r == want
+                if not good:
+                    orc.append("scalar-vector: %s(%s argument %s) = %s, the int calls give %s" % (name, label, at, str(r)[:80], str(want)[:80]))
+                ev.requests.append(req + " " + atok)
+                if approx_k is not None:
+                    ev.impl.append(("@approx", r, 1e-9))
+                elif is_scalar:
+                    ev.impl.append(r if isinstance(r, str) else "<%r>" % (r,))
+                else:
+                    ev.impl.append("[" + ",".join(r) + "]" if isinstance(r, list) and all(isinstance(v, str) for v in r) else "<%r>" % (r,))
+                nkinds += 1
+        ev.info["arg_kind_calls"] = nkinds
 
     # ---- oracle: an edited part answers like a part freshly built from what is on its timeline
     if edited:
@@ -1599,5 +1655,6 @@ def distribution(descs, results):
         if inf.get("first_t"):
             c["timeline_starts_after_0"] += 1
         c["positions_judged"] += inf.get("positions_judged", 0)
+        c["calls_with_other_argument_kinds(np.int64,tuple,empty list,empty array)"] += inf.get("arg_kind_calls", 0)
     c["error_observations"] = errs
     return dict(c)
